@@ -10,21 +10,6 @@ import "sync/atomic"
 // Enabled reports whether the hooks are compiled in.
 const Enabled = true
 
-// Point ids.
-const (
-	PtRowClaim    = 1  // a: row, b: worker-visible counter
-	PtWaitEnter   = 2  // a: row waited on, b: needed
-	PtWaitAdded   = 3  // after waiters.Add(1)
-	PtWaitLoop    = 4  // inside the wait loop, before cond.Wait
-	PtWaitExit    = 5  // a: row, b: needed
-	PtSignalStore = 6  // after done.Store; a: row, b: done
-	PtSignalBcast = 7  // before Broadcast
-	PtMBBegin     = 8  // a: x, b: y
-	PtMBEnd       = 9  // a: x, b: y
-	PtPhaseBRow   = 10 // a: y
-	PtFrameWorker = 11 // animation.DecodeFramesParallel worker picked frame a
-)
-
 type (
 	FramePassFunc func(pass, width, height int, y, u, v []byte, yStride, uvStride int)
 	PointFunc     func(id, a, b int)
